@@ -14,6 +14,13 @@ from .utils import autocreate, is_tooled, keyword_decorator
 _selector_fit_cache = {}
 
 
+def _return_category_from(ann):
+    if not ann.startswith("@"):
+        return None
+    names = [t[1:] for t in re.split(r" *& *", ann) if t[:1] == "@"]
+    return get_tags(*names)
+
+
 def _return_category(fn):
     """The category (tag) that the return annotation of fn gives it.
 
@@ -24,12 +31,14 @@ def _return_category(fn):
     ann = fn.__annotations__.get("return", None)
     if isinstance(ann, str):
         if ann.startswith("@"):
-            names = [t[1:] for t in re.split(r" *& *", ann) if t[:1] == "@"]
-            return get_tags(*names)
+            return _return_category_from(ann)
         try:
             ann = eval(ann, fn.__globals__)
         except Exception:
             return None
+        if isinstance(ann, str):
+            # The string form, under from __future__ import annotations
+            return _return_category_from(ann)
     return ann
 
 
